@@ -116,6 +116,18 @@ Check C12_observations_parse : forall l : list raw_obs,
   parse_all (map obs_of_raw l) = rates_of_raw l.
 Print Assumptions C12_observations_parse.
 
+(* the hypothesis "a published rate is not the placeholder 0" of C12_rule,
+   discharged for inverted observations: for every raw FXCADUSD value
+   0 < v <= 10^28 the rounded quotient 1/v is not zero *)
+Theorem C12_inverted_rate_nonzero : forall v x : Qc,
+  (0 < v)%Qc -> (v <= Qcfrac 10000000000000000000000000000 1)%Qc ->
+  a_div dec 1%Qc v = Ok x -> x <> 0%Qc.
+Proof. exact RatesProps.inverted_nonzero. Qed.
+Check C12_inverted_rate_nonzero : forall v x : Qc,
+  (0 < v)%Qc -> (v <= Qcfrac 10000000000000000000000000000 1)%Qc ->
+  a_div dec 1%Qc v = Ok x -> x <> 0%Qc.
+Print Assumptions C12_inverted_rate_nonzero.
+
 (* Decision rules, for every row of every accepted file (application path:
    load_tx_rates then Tx::try_from): a USD amount without an explicit rate is
    converted with the rule's rate of the row's TRADE date (transaction and
